@@ -12,6 +12,7 @@ mod driver;
 mod rng;
 mod s1;
 mod s2;
+mod s3;
 mod s4;
 mod sched;
 
